@@ -40,7 +40,8 @@ Failure classes (signatures):
         of the closed branch is replayed (`{[#X]([#C]([#D])[#E]([#F])|2)}` gives a self loop); needs >= 5 node tokens
   read_cgsmiles/multiplied-node-with-bond-symbol-inside-multiplied-branch   candidate finding: `[#A].([#B]|2)|2` -- in the
         copies made by the branch expansion all copies of B are bonded with the incoming order of B (recipe stores
-        one order per entry), the longhand bonds B-B with order 1
+        one order per entry), the longhand bonds B-B with order 1; only when the result is the right graph with
+        wrong bond orders
   read_cgsmiles/consecutive-branch-closures                       F7 seen through C05: two closures without a node
         token between them (a multiplier may sit between), a node token later, and the result is not isomorphic /
         KeyError / IndexError; only when no multiplied branch contains a branch
@@ -58,9 +59,13 @@ LEVEL = 'exploration'
 P_TARGETS = []
 BUDGET = {'quick': 33.0, 'thorough': 450.0}
 CHUNK = 300
+# two small families whose failures are candidate findings (see the docstring); switch off to leave them out
+BRANCH_COUNT_ONE_FAMILY = True      # `(...)|1`
+RING_IN_UNIT_FAMILY = True          # a ring that opens and closes inside one multiplied unit
 BOUNDS = {
-    'quick': {'exhaustive_max_node_tokens': '3 with <=2 multipliers and <=2 symbols; 4 with (1 multiplier, <=2 symbols) and '
-                                            '(2 multipliers, <=1 symbol); 5 with 1 multiplier and no symbol',
+    'quick': {'exhaustive_max_node_tokens': '3 with <=2 multipliers and <=2 symbols; 4 with (1 multiplier, <=2 symbols), '
+                                            '(2 multipliers, <=1 symbol) and (2 multipliers, <=2 symbols, no multiplied branch '
+                                            'that contains a branch); 5 with 1 multiplier and no symbol',
               'counts': [2, 3], 'nesting_depth': 3,
               'symbol_positions': 'incoming symbol of every node (incl. after |n), between ) and |n',
               'one_ring_bond_outside_units': True, 'annotated_max_node_tokens': 4,
@@ -84,7 +89,7 @@ RULE = ('ASTs of the documented grammar with multipliers (gen/g1_grammar.py): ev
         'multiplier has n >= 2 and the string also has a branch, a ring marker, a bond symbol or an annotation; '
         'distinct = distinct rendered text.')
 ASSUMPTIONS = [
-    'gen/g1_grammar.expand is the documented meaning of |n (written from the docs and from tests 7, 19-28 of test_read_cgsmiles)',
+    'gen/g1_grammar.expand is the documented meaning of |n (written from the docs; g1_grammar.selftest() checks it against the expected graphs of tests 7 and 19-28 of test_read_cgsmiles)',
     'gen/g1_grammar.denote is the documented meaning of the multiplier-free grammar (see C04)',
     'isomorphism is decided by networkx.is_isomorphic with node_match on fragname/charge/weight/free keys and edge_match on order',
 ]
@@ -105,18 +110,25 @@ def _with_text(gen, n=12):
 def cases(tier, seed):
     if tier == 'quick':
         yield from _with_text(g1.c05_recipes(3, max_mults=2))
-        yield from g1.c05_branch_count_one_recipes(4)
-        yield from g1.c05_ring_in_unit_recipes(4)
+        if BRANCH_COUNT_ONE_FAMILY:
+            yield from g1.c05_branch_count_one_recipes(4)
+        if RING_IN_UNIT_FAMILY:
+            yield from g1.c05_ring_in_unit_recipes(4)
         yield from g1.c05_annotated_recipes(4, branch_in_unit=True)
         yield from g1.c05_recipes(5, max_mults=1, max_nondefault=0, min_tokens=5, with_ring=False)
         yield from g1.c05_recipes(4, max_mults=1, max_nondefault=2, min_tokens=4)
         yield from g1.c05_recipes(4, max_mults=2, max_nondefault=1, min_tokens=4, min_mults=2)
         yield from g1.c05_random(seed, 2500, branch_in_unit=False)
         yield from g1.c05_random(seed + 1, 500, branch_in_unit=True)
+        # last, so that a loaded machine loses only this block: two multipliers and two symbols on 4 tokens
+        # (multiplied branches that contain a branch left out, that class is covered above)
+        yield from g1.c05_recipes(4, max_mults=2, max_nondefault=2, min_tokens=4, min_mults=2, branch_in_unit=False)
     else:
         yield from _with_text(g1.c05_recipes(4, max_mults=2))
-        yield from g1.c05_branch_count_one_recipes(5)
-        yield from g1.c05_ring_in_unit_recipes(6)
+        if BRANCH_COUNT_ONE_FAMILY:
+            yield from g1.c05_branch_count_one_recipes(5)
+        if RING_IN_UNIT_FAMILY:
+            yield from g1.c05_ring_in_unit_recipes(6)
         yield from g1.c05_annotated_recipes(6, branch_in_unit=True)
         yield from g1.c05_random(seed, 20000, branch_in_unit=False)
         yield from g1.c05_recipes(5, max_mults=1, max_nondefault=2, min_tokens=5)
@@ -135,7 +147,8 @@ def feature_tag(f):
     return '+'.join(tags)
 
 
-_WRONG_GRAPH = ('not-isomorphic', 'wrong-node-count', 'wrong-edge-set', 'wrong-edge-order')
+_WRONG_GRAPH = ('not-isomorphic', 'wrong-bond-orders', 'wrong-node-count', 'wrong-edge-set', 'wrong-edge-order')
+_WRONG_ORDERS = ('wrong-bond-orders', 'wrong-edge-order')
 
 
 def multiplied_node_with_symbol_in_multiplied_branch(chain, inside=False):
@@ -169,26 +182,27 @@ def multiplied_branch_after_closed_branch_in_branch(ast):
 
 
 def classify(ast, text, feats, kind, message=''):
-    """first matching (syntactic class of the input, kind of failure) pair wins"""
+    """first matching (syntactic class of the input, kind of failure) pair wins; the rarer classes are asked first, so
+    that a failure is only put down to the broad classes (F8 rest, F7) when nothing more specific fits"""
     wrong_or_lookup = kind in _WRONG_GRAPH or kind in ('exception-KeyError', 'exception-IndexError')
     if kind == 'exception-ValueError' and g1.symbol_after_node_multiplier(text) and 'invalid literal for int' in message:
         return 'read_cgsmiles/bond-symbol-after-node-multiplier/ValueError'
-    if wrong_or_lookup and g1.outer_multiplied_branch_contains_branch(ast):
-        return 'read_cgsmiles/multiplied-branch-containing-branch'
+    if kind == 'exception-UnboundLocalError' and g1.branch_multiplier_one(ast):
+        return 'read_cgsmiles/branch-multiplier-one/UnboundLocalError'
+    if kind in _WRONG_GRAPH and kind not in _WRONG_ORDERS and g1.ring_inside_multiplied_unit(ast):
+        return 'read_cgsmiles/ring-inside-multiplied-branch'
+    if kind in _WRONG_ORDERS and multiplied_node_with_symbol_in_multiplied_branch(ast):
+        return 'read_cgsmiles/multiplied-node-with-bond-symbol-inside-multiplied-branch'
     if wrong_or_lookup and multiplied_branch_after_closed_branch_in_branch(ast):
         return 'read_cgsmiles/multiplied-branch-after-closed-branch-inside-branch'
+    if wrong_or_lookup and g1.outer_multiplied_branch_contains_branch(ast):
+        return 'read_cgsmiles/multiplied-branch-containing-branch'
     if g1.consecutive_closures_then_token(text):
         # F7: the node after the closures is attached to the wrong anchor; with a ring bond on that node the
         # misplaced edge can coincide with the ring bond, which the reader reports as a duplicate edge
         if wrong_or_lookup or (kind == 'exception-SyntaxError' and feats['ring']
                                and 'two edges between the same node' in message):
             return 'read_cgsmiles/consecutive-branch-closures'
-    if kind in _WRONG_GRAPH and multiplied_node_with_symbol_in_multiplied_branch(ast):
-        return 'read_cgsmiles/multiplied-node-with-bond-symbol-inside-multiplied-branch'
-    if kind == 'exception-UnboundLocalError' and g1.branch_multiplier_one(ast):
-        return 'read_cgsmiles/branch-multiplier-one/UnboundLocalError'
-    if kind in _WRONG_GRAPH and g1.ring_inside_multiplied_unit(ast):
-        return 'read_cgsmiles/ring-inside-multiplied-branch'
     return 'read_cgsmiles/%s/%s' % (feature_tag(feats), kind)
 
 
@@ -220,7 +234,9 @@ def check_case(case):
         # numbering is free here: only isomorphism is demanded
         if g1.isomorphic(exp_nodes, exp_edges, obs_nodes, obs_edges):
             return Outcome(text, nontrivial, [])
-        kind = 'not-isomorphic'
+        # the same graph but for the bond orders, or a different graph?
+        kind = 'wrong-bond-orders' if g1.isomorphic(exp_nodes, exp_edges, obs_nodes, obs_edges, with_orders=False) \
+            else 'not-isomorphic'
         detail = '%s is not isomorphic to %s: nodes %r edges %r' % (
             text, extra['longhand'], [(k, d.get('fragname')) for k, d in obs_nodes.items()], g1.fmt_edges(obs_edges))
     else:
